@@ -1,6 +1,8 @@
 """C04 — strict mode rejects exactly the inputs containing an out-of-range value."""
 from checks import decoder_units as D
 from checks.decoder_common import run_property
+
+SEED = [0]
 from checks.common import layout
 
 
@@ -10,7 +12,7 @@ def jobs(tier):
     js = D.g_leaf(m, deep=1) + D.g_typed(("VALID",))
     js += [(W.unit_command, (None, "strict", True)), (W.unit_response, (None, "strict", False))]
     js += [(W.unit_tpmu, (un, sn, "strict")) for un, sn in W.union_parents()]
-    return js
+    return js + D.g_crosscheck(tier, SEED[0], only_frames=True)
 
 
 def keep(name, ob):
@@ -18,6 +20,7 @@ def keep(name, ob):
 
 
 def run(tier, seed, only=None):
+    SEED[0] = seed
     from checks.replay_decoder import replayer
     return run_property("C04", tier, seed, jobs(tier), keep,
                         "VALID[T] for all 102 classes (is_valid iff v in the pinned set, every integer of the width); leaf contract in strict mode: raise iff not valid, with (path, type, value, allowed set) and no event for the field; command-code dispatch failure builds the same kind of error; union selectors validated upstream always select a member",
